@@ -86,10 +86,12 @@ Definition r_q_poisson_exact (F g : Z -> Q) (h p K lam L : Q) (fuel : nat) : res
       else match fz g K lam fuel s with Some x => Ok x | None => Fuel end
   end.
 
-(* --- r_q_cost (normal demand): (K lam + I) / Q where I is what integrate.quad returned -------- *)
+(* --- r_q_cost (normal demand): (K lam + I) / Q where I is what integrate.quad returned --------
+   the integrand newsvendor_normal_cost raises ValueError when mu = lam L <= 0 or sigma = sd sqrt(L) <= 0 *)
 Definition r_q_cost (I : Q) (Qn h p K lam sd L : Q) : res Q :=
   if qleb Qn 0 then VErr else if qleb h 0 then VErr else if qleb p 0 then VErr else if qleb K 0 then VErr else
   if qltb lam 0 then VErr else if qltb sd 0 then VErr else if qltb L 0 then VErr else
+  if qleb (lam * L) 0 then VErr else if qleb sd 0 || qleb L 0 then VErr else
   Ok ((K * lam + I) / Qn).
 
 (* --- r_q_optimal_r_for_q: bisection on g(r) - g(r+Q) over [S - 5Q, S] ------------------------- *)
